@@ -152,6 +152,7 @@ func (c *fconn) WriteTo(m ndp.Message, _ *ipv6.ControlMessage, dst netip.Addr) e
 		life = ra.RouterLifetime.String()
 	}
 	vsched.Obs("write-begin", "conn=%d dst=%s lifetime=%s", c.id, dst, life)
+	tb := c.w.now() // the instant the packet is handed to the socket
 	c.w.mu.Lock()
 	c.w.nWrite++
 	nw, hw := c.w.nWrite, c.w.hookWrite
@@ -173,8 +174,11 @@ func (c *fconn) WriteTo(m ndp.Message, _ *ipv6.ControlMessage, dst netip.Addr) e
 		// Transmit latency: the call is in flight while others may run.
 		vsched.Point("conn.WriteTo:inflight")
 	}
+	if c.w.writeTime > 0 {
+		vsched.Sleep(c.w.writeTime)
+	}
 	c.w.mu.Lock()
-	c.w.writes = append(c.w.writes, wrec{T: c.w.now(), Conn: c.id, Dst: dst, RA: ra, Err: err, AfterClose: after})
+	c.w.writes = append(c.w.writes, wrec{T: tb, Conn: c.id, Dst: dst, RA: ra, Err: err, AfterClose: after})
 	c.w.mu.Unlock()
 	vsched.Obs("write-end", "conn=%d dst=%s err=%v", c.id, dst, err)
 	return err
@@ -263,6 +267,8 @@ type world struct {
 	// writeFaultRA is like writeFault but also sees the advertisement.
 	writeFaultRA func(c *fconn, dst netip.Addr, ra *ndp.RouterAdvertisement) error
 	latency      bool
+	// writeTime: every transmission stays in flight for this long (virtual time).
+	writeTime time.Duration
 	// hooks called (in the calling goroutine) when the n-th (1-based) WriteTo
 	// begins / forwarding read happens: used to arm harness threads at
 	// constructed instants.
